@@ -247,10 +247,30 @@ def _name_component() -> st.SearchStrategy:
     )
 
 
+def _numericish() -> st.SearchStrategy:
+    """What may stand where a number is expected (port-ID, major, minor): decimal numbers, spellings int() accepts or refuses, and
+    characters of every Unicode number category (str.isdigit / isdecimal / isnumeric disagree with int() on many of them)."""
+    uni = st.text(alphabet=st.characters(whitelist_categories=("Nd", "No", "Nl")), min_size=1, max_size=3)
+    return st.one_of(
+        st.integers(0, 70000).map(str),
+        st.sampled_from(["0", "1", "00", "007", "+1", "-0", "1_0", " 1", "1 ", "", "0x1", "1e1", "1.0", "\u00b2", "\u2460", "\u0663", "\uff11", "\u2082", "\u00bd", "\u2167", "9" * 30]),
+        uni,
+        st.tuples(st.integers(0, 9).map(str), uni).map("".join),
+    )
+
+
 def _file_name() -> st.SearchStrategy:
     comps = st.lists(_name_component(), min_size=0, max_size=5)
     ext = st.sampled_from([".dsdl", ".dsdl", ".dsdl", ".uavcan", ".DSDL", ".dsdl.bak", ""])
-    return st.tuples(comps, ext).map(lambda t: ".".join(t[0]) + t[1]).filter(lambda n: n not in ("", ".", "..") and len(n.encode("utf-8")) < 250)
+    free = st.tuples(comps, ext).map(lambda t: ".".join(t[0]) + t[1])
+    short = st.sampled_from(["Foo", "T", "a", "_", "Foo2", "é"])
+    # the documented shapes [port.]Short.major.minor.ext with the numeric slots drawn from the numeric-ish pool
+    shaped = st.one_of(
+        st.tuples(short, _numericish(), _numericish(), ext).map(lambda t: "%s.%s.%s%s" % t),
+        st.tuples(_numericish(), short, _numericish(), _numericish(), ext).map(lambda t: "%s.%s.%s.%s%s" % t),
+        st.tuples(_numericish(), short, st.sampled_from(["1", "0"]), st.sampled_from(["0", "1"]), ext).map(lambda t: "%s.%s.%s.%s%s" % t),
+    )
+    return st.one_of(free, shaped).filter(lambda n: n not in ("", ".", "..") and "/" not in n and "\x00" not in n and len(n.encode("utf-8")) < 250)
 
 
 def _dir_name() -> st.SearchStrategy:
@@ -285,8 +305,16 @@ def parts(ctx: Ctx) -> typing.List[Part]:
             "as_dependency": st.booleans(),
         }
     )
+    # magnitudes around the limits of the machine types that error messages and conversions go through (float: 2**1024 ~ 1.8e308,
+    # decimal str of an int: 4300 digits), as integers and as non-integral rationals, of either sign
+    magnitude = st.one_of(
+        st.integers(300, 312).map(lambda n: "1e%d" % n), st.integers(1020, 1027).map(lambda n: "2 ** %d" % n), st.sampled_from(["10 ** 400", "1e400", "1e999", "1e4000", "1e4290", "10 ** 4298"]),
+        st.integers(300, 330).map(lambda n: "1e-%d" % n), st.sampled_from(["1e-400", "1 / 1e4000", "2 ** -1080"]),
+    )
+    tail = st.sampled_from(["", " / 3", " + 0.5", " + 1/3", " * 1.5", " - 1", " / 7 * 2", " * 3"])
+    extreme = st.tuples(st.sampled_from(["", "-"]), magnitude, tail).map(lambda t: t[0] + "(" + t[1] + ")" + t[2] if t[0] else t[1] + t[2])
     targeted_cases = st.fixed_dictionaries(
-        {"expr": st.integers(0, len(TARGETED) - 1), "sink": st.integers(0, len(SINKS) - 1), "before": st.integers(0, 4), "newline": st.booleans(), "as_dependency": st.booleans()}
+        {"expr": st.one_of(st.integers(0, len(TARGETED) - 1), st.integers(0, len(TARGETED) - 1), extreme), "sink": st.integers(0, len(SINKS) - 1), "before": st.integers(0, 4), "newline": st.booleans(), "as_dependency": st.booleans()}
     )
     twin = st.one_of(st.none(), st.none(), st.fixed_dictionaries({"dirs": st.lists(st.sampled_from(["sub", "x"]), max_size=1), "kind": st.integers(0, 2), "body": st.integers(0, 2)}))
     name_cases = st.fixed_dictionaries({"entries": st.lists(st.tuples(st.lists(_dir_name(), max_size=2), _file_name()), min_size=0, max_size=3), "twin": twin})
